@@ -269,6 +269,96 @@ pub fn run_text_with_pkt(src: &str, pkt: Rc<crate::builtins::pcap::PcapPacket>) 
     }
 }
 
+/// REPL-style session: every entry is compiled against the symbol table,
+/// constants and globals left by the previous ones, exactly as `run_prompt`
+/// in src/main.rs does (including what it keeps after a failed entry).
+pub struct Session {
+    symtab: Option<crate::compiler::symtab::SymbolTable>,
+    constants: Vec<Rc<Object>>,
+    globals: Option<Vec<Rc<Object>>>,
+}
+
+pub enum Step {
+    ParseErrors(Vec<String>),
+    CompileError { msg: String, line: usize },
+    Ran(Ran),
+    Panic(PanicInfo),
+}
+
+impl Session {
+    pub fn new() -> Self {
+        use crate::builtins::functions::BUILTINFNS;
+        let mut symtab = crate::compiler::symtab::SymbolTable::default();
+        for (i, sym) in BUILTINFNS.iter().enumerate() {
+            symtab.define_builtin_fn(i, sym.name);
+        }
+        for n in BuiltinVarType::range() {
+            let name: &str = BuiltinVarType::from(n).into();
+            symtab.define_builtin_var(n, name);
+        }
+        let data = Rc::new(Object::Null);
+        Self { symtab: Some(symtab), constants: vec![], globals: Some(vec![data; crate::vm::interpreter::GLOBALS_SIZE]) }
+    }
+
+    pub fn num_constants(&self) -> usize {
+        self.constants.len()
+    }
+
+    pub fn step(&mut self, src: &str) -> Step {
+        let parsed = catch(|| {
+            let scanner = Scanner::new(src);
+            let mut parser = Parser::new(scanner);
+            let program = parser.parse_program();
+            if !parser.parse_errors().is_empty() {
+                Err(parser.parse_errors().clone())
+            } else {
+                Ok(program)
+            }
+        });
+        let program = match parsed {
+            Err(p) => return Step::Panic(p),
+            Ok(Err(e)) => return Step::ParseErrors(e),
+            Ok(Ok(p)) => p,
+        };
+        let symtab = self.symtab.take().unwrap();
+        let constants = std::mem::take(&mut self.constants);
+        let globals = self.globals.take().unwrap();
+        let r = catch(move || {
+            let mut compiler = Compiler::new_with_state(symtab, constants);
+            if let Err(e) = compiler.compile(program) {
+                // run_prompt keeps the compiler's symbol table and constants here
+                return (compiler.symtab, compiler.constants, globals, Err((e.msg.clone(), e.line)));
+            }
+            let bytecode = compiler.bytecode();
+            let mut vm = VM::new_with_global_store(bytecode, globals);
+            init_vars(&vm, &[]);
+            let res = vm.run();
+            let err = res.err().map(|e| (e.msg.clone(), e.line));
+            let sp = vm.verif_sp();
+            let last = if sp < 4096 { val_of(&vm.last_popped()) } else { Val::Null };
+            let g0 = val_of(&vm.globals[0]);
+            let globals = std::mem::take(&mut vm.globals);
+            (compiler.symtab, compiler.constants, globals, Ok(Ran { err, last, g0, sp }))
+        });
+        match r {
+            Ok((s, c, g, res)) => {
+                self.symtab = Some(s);
+                self.constants = c;
+                self.globals = Some(g);
+                match res {
+                    Ok(ran) => Step::Ran(ran),
+                    Err((msg, line)) => Step::CompileError { msg, line },
+                }
+            }
+            Err(p) => {
+                // state was moved into the panicking closure: start afresh
+                *self = Session::new();
+                Step::Panic(p)
+            }
+        }
+    }
+}
+
 /// Run a computation on a thread with a big stack (the parser and the
 /// reference interpreter recurse).
 pub fn with_big_stack<T: Send + 'static>(f: impl FnOnce() -> T + Send + 'static) -> T {
